@@ -101,7 +101,7 @@ class CandleManager:
         if self.name == DEFAULT_CANDLES:
             self.candles.extend(candles_)
         else:
-            self.candles.extend(deepcopy(candles_))
+            self.candles.extend(candle.clean_copy() for candle in candles_)
 
         self._tasks()
 
